@@ -4,6 +4,142 @@ import (
 	"golang.org/x/tools/go/ssa"
 )
 
+// allSourcesSatisfy: every value that can reach v through copies — local variable cells (also captured ones), φ-nodes,
+// closure free variables (bound at the closure's creation) and parameters of in-repo functions (bound at every call
+// site the call graph knows) — satisfies leaf. Used where a rule says "the key is addr.String()" and the code says
+// `k := addr.String(); … m[k]` or hands k to a small closure.
+func allSourcesSatisfy(p *Prog, v ssa.Value, leaf func(ssa.Value) bool, depth int, seen map[ssa.Value]bool) bool {
+	v = stripConv(v)
+	if leaf(v) {
+		return true
+	}
+	if depth > 8 || seen[v] {
+		return false
+	}
+	seen[v] = true
+	cellStores := func(a *ssa.Alloc) ([]ssa.Value, bool) {
+		var out []ssa.Value
+		if a.Referrers() == nil {
+			return nil, false
+		}
+		var visit func(refs []ssa.Instruction) bool
+		visit = func(refs []ssa.Instruction) bool {
+			for _, r := range refs {
+				switch y := r.(type) {
+				case *ssa.Store:
+					if y.Addr != ssa.Value(a) {
+						if _, isFV := y.Addr.(*ssa.FreeVar); !isFV {
+							return false
+						}
+					}
+					out = append(out, y.Val)
+				case *ssa.MakeClosure:
+					fn, _ := y.Fn.(*ssa.Function)
+					if fn == nil {
+						return false
+					}
+					for i, b := range y.Bindings {
+						if b == ssa.Value(a) && i < len(fn.FreeVars) && fn.FreeVars[i].Referrers() != nil {
+							for _, r2 := range *fn.FreeVars[i].Referrers() {
+								if st, isSt := r2.(*ssa.Store); isSt && st.Addr == ssa.Value(fn.FreeVars[i]) {
+									out = append(out, st.Val)
+								}
+							}
+						}
+					}
+				case *ssa.UnOp, *ssa.DebugRef:
+				default:
+					return false
+				}
+			}
+			return true
+		}
+		if !visit(*a.Referrers()) {
+			return nil, false
+		}
+		return out, len(out) > 0
+	}
+	switch x := v.(type) {
+	case *ssa.Phi:
+		for _, e := range x.Edges {
+			if !allSourcesSatisfy(p, e, leaf, depth+1, seen) {
+				return false
+			}
+		}
+		return true
+	case *ssa.UnOp:
+		switch cell := x.X.(type) {
+		case *ssa.Alloc:
+			vals, ok := cellStores(cell)
+			if !ok {
+				return false
+			}
+			for _, s := range vals {
+				if !allSourcesSatisfy(p, s, leaf, depth+1, seen) {
+					return false
+				}
+			}
+			return true
+		case *ssa.FreeVar:
+			fn := cell.Parent()
+			idx := -1
+			for i, fv := range fn.FreeVars {
+				if fv == cell {
+					idx = i
+				}
+			}
+			if idx < 0 || fn.Referrers() == nil {
+				return false
+			}
+			n := 0
+			for _, r := range *ssa.Value(fn).Referrers() {
+				mc, isMC := r.(*ssa.MakeClosure)
+				if !isMC || idx >= len(mc.Bindings) {
+					continue
+				}
+				a, isA := mc.Bindings[idx].(*ssa.Alloc)
+				if !isA {
+					return false // a closure inside a closure (binding is the outer free variable): not followed
+				}
+				vals, ok := cellStores(a)
+				if !ok {
+					return false
+				}
+				for _, s := range vals {
+					if !allSourcesSatisfy(p, s, leaf, depth+1, seen) {
+						return false
+					}
+				}
+				n++
+			}
+			return n > 0
+		}
+	case *ssa.Parameter:
+		fn := x.Parent()
+		idx := -1
+		for i, pr := range fn.Params {
+			if pr == x {
+				idx = i
+			}
+		}
+		callers := p.CallersOf(fn)
+		if idx < 0 || len(callers) == 0 {
+			return false
+		}
+		for _, cs := range callers {
+			args := callArgs(cs.Common())
+			if len(args) != len(fn.Params) {
+				return false
+			}
+			if !allSourcesSatisfy(p, args[idx], leaf, depth+1, seen) {
+				return false
+			}
+		}
+		return true
+	}
+	return false
+}
+
 // valueDependsOn: v is computed from root — root is reachable from v through operands (arithmetic, conversions, loads,
 // indexing, slicing, φ, call arguments and results, tuple extraction). A bounded, purely syntactic "is derived from".
 func valueDependsOn(v, root ssa.Value, depth int) bool {
